@@ -103,7 +103,8 @@ def python_bytes_to_unicode(
                 normalized = e[:12].lower().replace('_', '-')
                 if normalized == 'utf-8' or normalized.startswith('utf-8-'):
                     return 'utf-8'
-                if normalized.startswith(('latin-1-', 'iso-8859-1-', 'iso-latin-1-')):
+                if normalized in ('latin-1', 'iso-8859-1', 'iso-latin-1') \
+                        or normalized.startswith(('latin-1-', 'iso-8859-1-', 'iso-latin-1-')):
                     return 'iso-8859-1'
                 return e
             if not re.match(br'[ \t\f]*(?:#.*)?$', line):
